@@ -21,7 +21,8 @@ namespace Stun
 
 /-- a retransmission whose `Connection.Write` has been entered and has not returned -/
 inductive SuspKind where
-  | retransmit   -- the collector goroutine, inside handleAgentCallback
+  | retransmit   -- the collector goroutine, inside handleAgentCallback, at Connection.Write
+  | agentStart   -- the collector goroutine, inside handleAgentCallback, at ClientAgent.Start (before the write)
   | start        -- a caller's goroutine, inside Client.Start
 deriving DecidableEq, Repr
 
@@ -54,6 +55,59 @@ def retransmitEnd (c : Client) (s : Susp) (ok : Bool) : Client × List COut :=
   let st := c3.agent.stop s.id
   ({ c3 with agent := st.1 }, [.call s.h s.id (if st.2.1.isSome then .stopErr else .writeErr)])
 
+/-- the retransmission up to the point where `ClientAgent.Start` is entered: the entry has been found and removed,
+    the attempt advanced and the transaction registered with the client again -/
+def retransmitPre (c : Client) (tx : Txn) (id : TID) : Client × Susp :=
+  let tx' := { tx with attempt := tx.attempt + 1 }
+  (c.insert tx', { kind := .agentStart, h := tx.h, id := id, tx := tx' })
+
+/-- … and from there on; `inject`: the agent's `Start` fails (a custom ClientAgent may; the stock Agent does when it
+    was closed meanwhile). On an error the client finishes the transaction only if it is still the one registered
+    under its id. The write that follows a successful `Start` does not block here. -/
+def retransmitPost (c1 : Client) (s : Susp) (inject : Bool) : Client × List COut :=
+  let stale := c1.lookup s.id != some s.tx
+  let r := c1.agent.start s.id (nextTimeout s.tx c1.now)
+  let err : Option AErr := if inject then some .closed else r.2
+  match err with
+  | some e =>
+    if stale then (c1, []) else
+    (c1.erase s.id, [.call s.h s.id (if e == .closed then .agentClosed else .exists)])
+  | none =>
+    let w := ({ c1 with agent := r.1 }).connWrite s.tx.raw
+    if w.2 then (w.1, [.write s.tx.raw (some s.h)])
+    else
+      let stale2 := w.1.lookup s.id != some s.tx
+      if stale2 then (w.1, [.write s.tx.raw (some s.h)]) else
+      let c3 := w.1.erase s.id
+      let st := c3.agent.stop s.id
+      ({ c3 with agent := st.1 },
+        [.write s.tx.raw (some s.h), .call s.h s.id (if st.2.1.isSome then .stopErr else .writeErr)])
+
+/-- with nothing in between and no injected failure, the two parts around `ClientAgent.Start` are the L1
+    retransmission (the entry just inserted is found again, provided its id was free) -/
+theorem retransmit_split2 (c : Client) (tx : Txn) (id : TID)
+    (hfree : (c.insert { tx with attempt := tx.attempt + 1 }).lookup id = some { tx with attempt := tx.attempt + 1 }) :
+    retransmit c tx id = retransmitPost (retransmitPre c tx id).1 (retransmitPre c tx id).2 false := by
+  unfold retransmit retransmitPost retransmitPre
+  simp only [hfree, bne_self_eq_false, Bool.false_eq_true, if_false]
+  generalize ((c.insert { tx with attempt := tx.attempt + 1 }).agent.start id
+    (nextTimeout { tx with attempt := tx.attempt + 1 } (c.insert { tx with attempt := tx.attempt + 1 }).now)) = r
+  obtain ⟨a, e⟩ := r
+  cases e with
+  | some err => rfl
+  | none =>
+    simp only
+    have hw : (({ c.insert { tx with attempt := tx.attempt + 1 } with agent := a } : Client).connWrite tx.raw).1.lookup id
+        = some { tx with attempt := tx.attempt + 1 } := by
+      have : (({ c.insert { tx with attempt := tx.attempt + 1 } with agent := a } : Client).connWrite tx.raw).1.t
+          = (c.insert { tx with attempt := tx.attempt + 1 }).t := by
+        unfold Client.connWrite; split <;> rfl
+      unfold Client.lookup at hfree ⊢
+      rw [this]; exact hfree
+    split
+    · rfl
+    · simp only [hw, bne_self_eq_false, Bool.false_eq_true, if_false]
+
 /-- `Start` with a handler up to the point where `Connection.Write` is entered -/
 def startBegin (c : Client) (id : TID) (raw : Bytes) (h : Nat) : Client × Option CErr × List COut × Option Susp :=
   if c.closed then (c, some .clientClosed, [], none) else
@@ -62,7 +116,7 @@ def startBegin (c : Client) (id : TID) (raw : Bytes) (h : Nat) : Client × Optio
   if (c.lookup id).isSome then (c, some .exists, [], none) else
   let c := c.insert tx
   match c.agent.start id d with
-  | (_, some err) => (c, some (if err == .closed then .agentClosed else .exists), [], none)
+  | (_, some err) => (c.erase id, some (if err == .closed then .agentClosed else .exists), [], none)
   | (a, none) => ({ c with agent := a }, none, [.write raw (some h)], some { kind := .start, h := h, id := id, tx := tx })
 
 /-- … and from the point where it returns: on an error `Start` deletes by id, stops the agent transaction and
@@ -124,6 +178,8 @@ structure Client2 where
   c : Client := {}
   /-- scripted connection: the next retransmission write of a listed id blocks (one entry per occurrence) -/
   blockIds : List TID := []
+  /-- scripted agent: the next `ClientAgent.Start` of a listed id (from a retransmission) blocks -/
+  blockAgentIds : List TID := []
   /-- writes entered and not yet returned, oldest first -/
   susp : List Susp := []
 deriving Repr
@@ -141,6 +197,9 @@ def callback (k : Client2) (id : TID) (e : CEv) : Client2 × List COut × Bool :
   | none => (l1.1, l1.2, false)
   | some tx =>
     if c.maxAttempts ≤ tx.attempt || e.isMsg then (l1.1, l1.2, false)
+    else if k.blockAgentIds.contains id then
+      let r := Client.retransmitPre (c.erase id) tx id
+      ({ k with c := r.1, blockAgentIds := k.blockAgentIds.erase id, susp := k.susp ++ [r.2] }, [], true)
     else if k.blockIds.contains id then
       match Client.retransmitBegin (c.erase id) tx id with
       | (c1, o1, none) => ({ k with c := c1 }, o1, false)
@@ -171,8 +230,10 @@ def release (k : Client2) (ok : Bool) : Client2 × List COut :=
   | s :: rest =>
     -- `deleteIfCurrent`: did somebody else complete this transaction while the collector was inside Write?
     let stale := k.c.lookup s.id != some s.tx
-    let (k1, o1) := if !ok && stale then ({ k with susp := rest }, []) else
-      ({ k with susp := rest }).lift (Client.retransmitEnd k.c s ok)
+    let (k1, o1) :=
+      if s.kind == .agentStart then ({ k with susp := rest }).lift (Client.retransmitPost k.c s (!ok))
+      else if !ok && stale then ({ k with susp := rest }, [])
+      else ({ k with susp := rest }).lift (Client.retransmitEnd k.c s ok)
     let (k2, o2) := k1.callbacks s.rest
     (k2, o1 ++ o2)
 
@@ -193,6 +254,7 @@ end Client2
 inductive COp2 where
   | l1 (op : COp)                        -- any L1 operation; ticks use the blocking-aware callback
   | blockWrite (id : TID)
+  | blockAgent (id : TID)
   | release (ok : Bool)
   | startBlocked (id : TID) (raw : Bytes) (h : Nat)   -- Start whose first write blocks (returns at `release`)
   | deliverDecoded (tid : TID) (raw : Bytes)   -- a datagram that decoded to this id (the reader's Process + callback)
@@ -202,6 +264,7 @@ def Client2.step (k : Client2) : COp2 → Client2 × Option CErr × List COut
   | .l1 (.tick t) => let r := k.tick t; (r.1, none, r.2)
   | .l1 op => let r := k.c.step op; ({ k with c := r.1 }, r.2.1, r.2.2)
   | .blockWrite id => ({ k with blockIds := k.blockIds ++ [id] }, none, [])
+  | .blockAgent id => ({ k with blockAgentIds := k.blockAgentIds ++ [id] }, none, [])
   | .release ok =>
     if (k.susp.head?.map (·.kind)) == some SuspKind.start then let r := k.releaseStart ok; (r.1, r.2, [])
     else let r := k.release ok; (r.1, none, r.2)
